@@ -35,7 +35,7 @@ EXPLANATION = (
     "carquet_column_index_add_page records a page as a null page exactly when its caller says so and "
     "copies exactly the non-empty bounds it was given; (8) the page writer's update_statistics_i32 / _i64, "
     "executed for two consecutive batches over every tuple of a 4-value alphabet (they only compare and copy, "
-    "so the ordering is all that matters), record the minimum and maximum of everything added. (9) in reader/statistics.c leaf indices and schema-element indices are not mixed - also through a constant offset or a parameter whose space is fixed by the callee it is handed to (R13, shared with C02.5): the statistics of a column are compared using that column's own physical type. Decides these clauses, not that written min/max "
+    "so the ordering is all that matters), record the minimum and maximum of everything added. (9) in reader/statistics.c leaf indices and schema-element indices are not mixed - also through a constant offset or a parameter whose space is fixed by the callee it is handed to (R13, shared with C02.5): the statistics of a column are compared using that column's own physical type. (10) every memcmp-based (pointer, length, pointer, length) comparator of the statistics code, executed on concrete strings (equal, differing, proper prefixes, the empty string against a non-empty one), returns the sign of the lexicographic order - an empty probe or bound is a value like any other. Decides these clauses, not that written min/max "
     "bound the data for every input, nor floating-point and byte-array orderings beyond the "
     "comparator-table clause.")
 
@@ -161,6 +161,8 @@ def run(ctx):
         "src/thrift/parquet_types.c", "src/writer/page_writer.c", "src/writer/column_writer.c",
         "src/writer/file_writer.c", "src/writer/row_group_writer.c", "src/reader/file_reader.c"))
     ctx.floor("C16 min/max stores and argument pairs", npol, 80)
+    ctx.clause("C16.10 the byte-string comparators behind BYTE_ARRAY / FIXED_LEN_BYTE_ARRAY bounds order lexicographically, a proper prefix (the empty string included) first")
+    ctx.floor("C16 byte-string comparators executed", _byte_comparators(ctx), 2)
     ctx.clause("C16.7 the column-index builder records a page as a null page exactly when its caller says so, and the bounds it was given")
     _index_builder_records(ctx)
     f = P.fn("carquet_reader_row_group_matches", RS)
@@ -1047,3 +1049,49 @@ def _every_value_counts(ctx):
                    "build() publishes no bounds (%d scenarios, abstract execution with hooked comparators)" % (fname, n), bad is None, bad or "")
         except (sem.Inconclusive, KeyError) as ex:
             ctx.inconclusive("R6.must-pass", key, P.where(f.body), "abstract execution of %s" % fname, "%s: %s" % (type(ex).__name__, ex))
+
+
+def _byte_comparators(ctx):
+    """Every (pointer, length, pointer, length) -> int comparator of the statistics code that rests on memcmp, executed on
+    concrete byte strings - equal, different at some byte, one a proper prefix of the other, and the empty string against a
+    non-empty one: the sign is the lexicographic order in which a proper prefix (the empty string included) sorts first.
+    The row-group and page predicates read min / max of BYTE_ARRAY columns through these."""
+    from ..rules import sem
+    from ..rules.skeleton import Ptr
+    P = ctx.P
+    n = 0
+    S = lambda t: [ord(c) for c in t]
+    pairs = [("", ""), ("", "a"), ("a", ""), ("ab", "ab"), ("ab", "abc"), ("abc", "ab"), ("ab", "ac"), ("b", "ab"), ("", "zz"), ("zz", "")]
+    for file_ in ("src/reader/statistics.c", "src/metadata/statistics.c", "src/metadata/page_index.c"):
+        for fn in P.funcs_in(file_):
+            if fn.body is None or len(fn.params) != 4 or (fn.ret or "").strip() != "int":
+                continue
+            ts = [q.get("t") or "" for q in fn.params]
+            if not ("*" in ts[0] and "*" not in ts[1] and "*" in ts[2] and "*" not in ts[3]):
+                continue
+            if not any(c.callee in ("memcmp", "__builtin_memcmp") for c in fn.calls()):
+                continue
+            key = "byte-comparator|%s:%s" % (file_, fn.name)
+            what = "%s orders byte strings lexicographically with a proper prefix - the empty string included - first" % fn.name
+            bad, done = None, 0
+            try:
+                for a, b in pairs:
+                    heap0 = {("a", i): c for i, c in enumerate(S(a) + [0x7E])}
+                    heap0.update({("b", i): c for i, c in enumerate(S(b) + [0x21])})
+                    ret, ev, heap = sem.run(P, fn, [Ptr("a", 0, 1), len(a), Ptr("b", 0, 1), len(b)], heap0=heap0, hooks={}, single=True, max_forks=8, budget=20000)
+                    done += 1
+                    if not isinstance(ret, int):
+                        raise sem.Inconclusive("returns %r for (%r, %r)" % (ret, a, b))
+                    want = (a > b) - (a < b)
+                    got = (ret > 0) - (ret < 0)
+                    if bad is None and got != want:
+                        bad = "%r against %r: returns %d, the order is %s" % (a, b, ret, {-1: "less", 0: "equal", 1: "greater"}[want])
+            except (sem.Inconclusive, KeyError) as ex:
+                if bad:
+                    ctx.ob("R5.optable", key, P.where(fn.body), what, False, bad)
+                else:
+                    ctx.inconclusive("R5.optable", key, P.where(fn.body), what, "%s: %s" % (type(ex).__name__, ex))
+                continue
+            n += 1
+            ctx.ob("R5.optable", key, P.where(fn.body), what + " (%d pairs)" % done, bad is None, bad or "")
+    return n
